@@ -4,7 +4,7 @@ m="$1"
 case "$m" in
   */seeded/*) b="seeded/$(basename $(dirname $m))"; origin=seed; prop=$(basename $(dirname $m) | cut -d- -f1);;
   *) b=$(basename $m .patch); prop=$(echo $b | cut -d- -f1)
-     case "$b" in ok-*) origin=refactor;; *-b[0-9]*) origin="seed round 2";; *-c[0-9]*) origin="seed round 3";; *-d[0-9]) origin="seed round 4";; *-e[0-9]) origin="seed round 5";; *-f[0-9]) origin="seed round 6";; *-g[0-9]) origin="seed round 7";; *seed*) origin="seed (ported)";; *revert*) origin="revert of fix";; *) origin=own;; esac;;
+     case "$b" in ok-*) origin=refactor;; *-b[0-9]*) origin="seed round 2";; *-c[0-9]*) origin="seed round 3";; *-d[0-9]) origin="seed round 4";; *-e[0-9]) origin="seed round 5";; *-f[0-9]) origin="seed round 6";; *-g[0-9]) origin="seed round 7";; *-h[0-9]) origin="seed round 8";; *seed*) origin="seed (ported)";; *revert*) origin="revert of fix";; *) origin=own;; esac;;
 esac
 if [ "$origin" != refactor ]; then
   # a bad variant: the full decision (normal forms included) of the property it was written for, and which other
